@@ -117,6 +117,10 @@ def _arr_effect(tag: int, a) -> list[int]:
     a = np.asarray(a)
     out = [tag, a.ndim] + [int(s) for s in a.shape]
     flat = a.reshape(-1).tolist()
+    if len(flat) > 256:
+        # large arrays (big-message configurations) enter the trace by a digest of their bit patterns
+        raw = json.dumps([bits(v) if a.dtype.kind == "f" else repr(v) for v in flat]).encode()
+        return out + [-77] + [int(hashlib.sha1(raw).hexdigest()[k:k + 12], 16) for k in (0, 12, 24)]
     if a.dtype.kind == "f":
         out += [bits(v) for v in flat]
     elif a.dtype.kind in "iub":
@@ -191,7 +195,15 @@ def build_config(case: dict, external: bool) -> dict:
             "lower_bounds": [(-np.inf if v is None else v) for v in case["con_lower"]],
             "upper_bounds": [(np.inf if v is None else v) for v in case["con_upper"]],
         }
-    if case.get("lin") is not None:
+    if case.get("big_lin"):
+        # many loose linear constraints with full-precision coefficients: a config message above the pipe capacity
+        rows, nvar = int(case["big_lin"]), len(case["init"])
+        cfg["linear_constraints"] = {
+            "coefficients": [[((i * 31 + j * 17) % 97) / 97.0 - 0.5 for j in range(nvar)] for i in range(rows)],
+            "lower_bounds": [-np.inf] * rows,
+            "upper_bounds": [1000.0 + i / 7.0 for i in range(rows)],
+        }
+    elif case.get("lin") is not None:
         lin = case["lin"]
         cfg["linear_constraints"] = {
             "coefficients": [list(r) for r in lin["coef"]],
@@ -987,7 +999,8 @@ def features(case: dict, obs: dict) -> dict:
         "callbacks": "0" if n == 0 else "1-4" if n <= 4 else "5-12" if n <= 12 else "13+",
         "inproc_outcome": i["out"][0] + (":" + str(i["out"][1]) if i["out"][0] != "hang" else ""),
         "external_outcome": e["out"][0] + (":" + str(e["out"][1]) if e["out"][0] != "hang" else ""),
-        "constraints": bool(case.get("ncon")) or case.get("lin") is not None,
+        "constraints": bool(case.get("ncon")) or case.get("lin") is not None or bool(case.get("big_lin")),
+        "big_messages": bool(case.get("big")),
         "mask": case.get("mask") is not None,
         "explicit_start": case.get("start") is not None,
         "nan": bool(case.get("nan")),
@@ -1149,14 +1162,22 @@ def long_base(rng, method: str = "slsqp") -> dict:
     return case
 
 
-def big_base(rng) -> dict:
-    """A configuration whose config message (and gradient answers) exceed the pipe capacity of 64 KiB."""
-    case = rand_base(rng, "l-bfgs-b", "plain")
-    nvar = 1800        # config message of about 69 KB
-    case.update({"init": [_dy(rng, -4, 4) for _ in range(nvar)], "centers": [[0.5] * nvar for _ in case["obj_weights"]],
-                 "pert": 1, "max_functions": 2, "big": True})
-    for key in ("lower", "upper", "mask", "start", "options"):
+def big_base(rng, wide: bool = False) -> dict:
+    """A configuration whose config message exceeds the pipe capacity of 64 KiB (F20e): slsqp with 800 loose linear
+    constraints (config message of about 76 KB, everything else small); `wide`: 1800 variables instead, so that the
+    evaluation requests and gradient answers are large too (thorough tier: the Coq term of such a case is 1.7 MB)."""
+    if wide:
+        case = rand_base(rng, "l-bfgs-b", "plain")
+        nvar = 1800        # config message of about 72 KB
+        case.update({"init": [_dy(rng, -4, 4) for _ in range(nvar)], "centers": [[0.5] * nvar for _ in case["obj_weights"]],
+                     "pert": 1, "max_functions": 2, "big": True})
+        for key in ("lower", "upper", "mask", "start", "options", "paths"):
+            case.pop(key, None)
+        return case
+    case = rand_base(rng, "slsqp", "plain")
+    for key in ("lin", "mask", "options", "paths"):
         case.pop(key, None)
+    case.update({"big_lin": 800, "big": True, "max_functions": 3, "speculative": False, "split": False})
     return case
 
 
@@ -1182,6 +1203,7 @@ def gen_cases(tier, rng):
         yield c
     if BIG_MESSAGES and not quick:
         yield big_base(rng)           # (quick: corpus/C20/f20e_big_config.json)
+        yield big_base(rng, wide=True)
     # (b) crash points on plain and on faulty runs: the child dies by a signal (SIGTERM, SIGKILL, SIGINT, SIGHUP,
     #     os.abort(), SIGSEGV) when it is about to write message k, right after the answer to message k, or while it
     #     waits for the answer to message k; it exits with a code; the optimizer's j-th callback raises in the child
@@ -1271,7 +1293,7 @@ RULE = ("every case = one in-process run and one run through external/<method> (
         "methods slsqp / l-bfgs-b / nelder-mead / differential_evolution(seed, also parallel), named <m> or scipy/<m>, with "
         "1-2 objectives, 1-3 realizations, nonlinear and linear constraints, two- and one-sided bounds, variable masks, explicit "
         "start vectors, speculative / split evaluations, max_functions / maxiter, optimizer.output_dir / stdout / stderr paths, a "
-        "configuration of 1800 variables (messages above the pipe capacity), "
+        "configuration with 800 linear constraints / 1800 variables (messages above the pipe capacity), "
         "NaN failures (tolerated, too-few, allowed for DE), user abort before or after evaluation j with exit code 4/0/1/3, the "
         "user's evaluator raising an Exception or a BaseException at call j, an optimizer option that makes the optimizer itself "
         "fail; pipe schedules (requests not readable / answers not writable when first tried, parent and child side); faults: "
@@ -1292,8 +1314,8 @@ ASSUMPTIONS = [
     "JSON text round trip of finite floats, NaN and infinities is exact up to NaN payload (repr floats; checked on every message by comparing "
     "both ends of the pipe bit by bit) and the validated config survives dump -> JSON -> validate -> dump (checked on every case)",
     "a FIFO delivers every message whole: true for messages below the pipe capacity (64 KiB) by the OS, and above it by the write / read "
-    "loops of _JSONPipeCommunicator (F20e, fixed by 6863677); exercised on every run by a configuration of 1800 variables (config "
-    "message of 72 KB), not modelled",
+    "loops of _JSONPipeCommunicator (F20e, fixed by 6863677); exercised on every run by a configuration with 800 linear constraints "
+    "(config message of about 76 KB) and in the thorough tier by one of 1800 variables (large requests and answers too), not modelled",
     "a signal the child survives (ignored or handled without exiting) is not a death: such a case is judged as a run without fault; "
     "a handler that makes the child exit -- with whatever status -- is a death",
     "'the evaluator raises' covers Exception and BaseException subclasses raised by the evaluator function (KeyboardInterrupt delivered "
@@ -1330,7 +1352,7 @@ MANIFEST = {
                    "Gallina model (`terminate` assumes SIGTERM + wait ends a running child, `poll` reports a dead child, FIFOs deliver what was "
                    "written -- whole messages; a write into a FIFO without reader fails at once); "
                    "these are exercised only by the real-process correspondence (wall time < _PROCESS_TIMEOUT + 90 s, child pid dead, FIFO "
-                   "directory empty; messages above the pipe capacity: F20e, fixed, one 72 KB config message on every run).  "
+                   "directory empty; messages above the pipe capacity: F20e, fixed, one 76 KB config message on every run).  "
                    "Trusted: Coq kernel + VM; the PATH wrapper and the recording monkey-patches; SciPy and the evaluator as black boxes "
                    "replayed from the in-process run; the translator copying _PROCESS_TIMEOUT and OptimizerExitCode.  All theorems print "
                    "'Closed under the global context'."),
